@@ -23,6 +23,7 @@ META = {
         "terminal response implies an accepted EXECUTION record. Non-trivial = execution with >=30 task switches in some "
         "invocation and >=2 API calls (producer and batcher really interleaved); distinct = (program shape, fault/crash "
         "plan, decision-trace hash of the first invocation)."
+        " Plus LinePreempt sweeps: for six fixed small programs (with/without a failing call) one run per executed source line of state.py/threading.py in which the task executing that line is preempted as long as anything else can run."
     ),
     "assumptions": ["the instant of visibility is the return of the DurableContext call into the generated program (the harness owns the schedule, so reading the backend table there is race-free)"],
     "budget": {
